@@ -1,8 +1,119 @@
-//! C18 correspondence streams (stub).
-use crate::util::Opts;
-use std::io::Write;
+//! C18: serial transfers appear on standard output in order, and the core writes nothing else there.
+//! The guest program (LD A,v ; LDH (n),A ... HALT) runs through `Core::run_code_block` of THIS build with fd 1 pointed at a
+//! scratch file; the runner joins the jit and non-jit lines.
+//! c18 ws=<a:v;...> | out=<hex of the bytes that reached fd 1> halted=<0|1>
+//! c18.fill (jit build only): fill the translation cache up to its last 4 KiB and report what reached fd 1.
+use crate::emulator::RunState;
+use crate::roms::*;
+use crate::util::{hex, Opts, Rng};
+use std::io::{Read, Seek, SeekFrom, Write};
+use std::os::unix::io::AsRawFd;
 
-pub fn run(sub: &str, _opts: &Opts, _w: &mut dyn Write) {
-  eprintln!("stream c18.{} not implemented", sub);
-  std::process::exit(2);
+pub struct Capture { saved: i32, file: std::fs::File }
+
+impl Capture {
+  pub fn start() -> Capture {
+    let path = format!("{}/c18_{}.out", work_dir(), std::process::id());
+    let file = std::fs::OpenOptions::new().create(true).truncate(true).read(true).write(true).open(&path).unwrap();
+    let _ = std::fs::remove_file(&path);
+    let saved = unsafe { libc::dup(1) };
+    unsafe { libc::dup2(file.as_raw_fd(), 1); }
+    Capture { saved, file }
+  }
+  pub fn finish(mut self) -> Vec<u8> {
+    let _ = std::io::stdout().flush();
+    unsafe { libc::dup2(self.saved, 1); libc::close(self.saved); }
+    let mut out = Vec::new();
+    self.file.seek(SeekFrom::Start(0)).unwrap();
+    self.file.read_to_end(&mut out).unwrap();
+    out
+  }
+}
+
+pub fn gen_writes(rng: &mut Rng) -> Vec<(u8, u8)> {
+  let n = 1 + rng.below(24) as usize;
+  (0..n).map(|_| {
+    let a = if rng.chance(1, 2) { 0x01 } else { 0x02 };
+    let v = match rng.below(4) { 0 => *rng.pick(&[0x00u8, 0x7f, 0x80, 0x81, 0xff, 0x01, 0x0a, 0x41]), _ => rng.u8() };
+    (a, v)
+  }).collect()
+}
+
+pub fn run(sub: &str, opts: &Opts, w: &mut dyn Write) {
+  if sub == "fill" { return fill(w); }
+  let mut rng = Rng::new(opts.seed ^ 0xc18);
+  let (shard, nshards) = opts.shard();
+  let n = if opts.thorough { 20000 } else { 300 };
+  for idx in 0..n {
+    let ws = gen_writes(&mut rng);
+    let at: usize = if rng.chance(1, 3) { 0x4000 + rng.below(0x3000) as usize } else { 0x0150 + rng.below(0x3000) as usize };
+    if idx % nshards != shard { continue; }
+    let mut core = mk_core(0x01, 1, 0);
+    let mut pc = at;
+    for (a, v) in ws.iter() {
+      for b in [0x3e, *v, 0xe0, *a] { core.memory.rom[pc] = b; pc += 1; }
+      // now and then end the block so that several translated blocks are involved
+      if rng_like(*v) { for b in [0x18u8, 0x00] { core.memory.rom[pc] = b; pc += 1; } }
+    }
+    core.memory.rom[pc] = 0x76;
+    core.registers.ip = at as u32;
+    let cap = Capture::start();
+    let mut steps = 0;
+    while core.run_state == RunState::Run && steps < 200 { core.run_code_block(); steps += 1; }
+    let out = cap.finish();
+    let wss: Vec<String> = ws.iter().map(|(a, v)| format!("{}:{}", 0xff00u32 | *a as u32, v)).collect();
+    writeln!(w, "c18 ws={} at={} | out={} halted={}", wss.join(";"), at, hex(&out), (core.run_state == RunState::Halt) as u8).unwrap();
+  }
+}
+
+fn rng_like(v: u8) -> bool { v % 5 == 0 }
+
+/// fill the executable area with translations until fewer than 0x1000 bytes are left, with fd 1 captured
+fn fill(w: &mut dyn Write) {
+  if !cfg!(feature = "jit") { writeln!(w, "c18.fill ws= | out= halted=1 skipped=1").unwrap(); return; }
+  let mut core = mk_core(0x11, 6, 0); // MBC3, 128 banks (7-bit bank register)
+  let banks = rom_bank_count(6);
+  // every bank: a long NOP run ending in JP 0x0150 (big blocks), plus many tiny blocks `NOP ; JP 0x0150` every 8 bytes
+  for b in 1..banks {
+    let base = b * 0x4000;
+    for i in 0..0x3000 { core.memory.rom[base + i] = 0x00; }
+    for (i, x) in [0xc3u8, 0x50, 0x01].iter().enumerate() { core.memory.rom[base + 0x3000 + i] = *x; }
+    let mut o = 0x3100;
+    while o + 8 <= 0x3f00 { for (i, x) in [0x00u8, 0xc3, 0x50, 0x01].iter().enumerate() { core.memory.rom[base + o + i] = *x; } o += 8; }
+  }
+  for (i, x) in [0x76u8].iter().enumerate() { core.memory.rom[0x150 + i] = *x; }
+  let cap = Capture::start();
+  let total = crate::cache::INITIAL_MEMORY_SIZE;
+  let mut used_est: usize = 0;
+  let mut bank = 1usize;
+  // big blocks: ~ 0x3000 * 8 bytes each
+  while bank < banks && used_est + 0x3000 * 8 + 0x2000 < total - 0x1000 {
+    crate::mem::memory_write_byte(&mut core.memory as *mut _, 0x2100, bank as u8);
+    core.registers.ip = 0x4000; core.run_state = RunState::Run;
+    core.run_code_block();
+    used_est += 0x3000 * 8 + 40;
+    bank += 1;
+  }
+  // tiny blocks until fewer than 0x1000 bytes are left (cursor read through the CodeCache::verif_block hook), then a few more
+  let mut o = 0x3100usize; let mut tiny = 0usize;
+  let mut b2 = 1usize;
+  let mut below = 0usize;
+  while tiny < 400_000 && below < 5 {
+    crate::mem::memory_write_byte(&mut core.memory as *mut _, 0x2100, b2 as u8);
+    let ip = 0x4000 + o;
+    core.registers.ip = ip as u32; core.run_state = RunState::Run;
+    core.run_code_block();
+    tiny += 1;
+    core.cache.set_rom_bank(core.memory.get_rom_bank());
+    if let Some((off, len, _)) = core.cache.verif_block(ip) {
+      let remaining = total - (off + len);
+      if remaining < 0x1000 { below += 1; }
+      if remaining < 0x200 { break; }
+    }
+    o += 8; if o + 8 > 0x3f00 { o = 0x3100; b2 += 1; if b2 >= banks { break; } }
+  }
+  let _ = used_est;
+  let out = cap.finish();
+  let show = if out.len() > 120 { &out[..120] } else { &out[..] };
+  writeln!(w, "c18.fill ws= | out={} halted=1 blocks={} outlen={}", hex(show), tiny + bank, out.len()).unwrap();
 }
